@@ -2,12 +2,15 @@ package harness
 
 import (
 	"context"
+	"fmt"
+	"io"
 	"path/filepath"
 	"sync"
 	"testing"
 	"time"
 
 	golangGrpc "google.golang.org/grpc"
+	"google.golang.org/grpc/codes"
 	"google.golang.org/grpc/metadata"
 	"google.golang.org/grpc/status"
 )
@@ -145,4 +148,77 @@ func TestGrpcDuplex(t *testing.T) {
 			}
 		}
 	}
+}
+
+// seqStream is a ServerStream double whose operations return what the test scripted for the current operation.
+type seqStream struct {
+	ctx context.Context
+	r   *grpcRec
+	err error
+}
+
+func (f *seqStream) SetHeader(metadata.MD) error  { return nil }
+func (f *seqStream) SendHeader(metadata.MD) error { return nil }
+func (f *seqStream) SetTrailer(metadata.MD)       {}
+func (f *seqStream) Context() context.Context     { return f.ctx }
+func (f *seqStream) op() error {
+	f.r.mu.Lock()
+	f.r.ran++
+	f.r.mu.Unlock()
+	return f.err
+}
+func (f *seqStream) SendMsg(m interface{}) error { return f.op() }
+func (f *seqStream) RecvMsg(m interface{}) error { return f.op() }
+
+// TestGrpcStreamSequence issues long sequences of RecvMsg / SendMsg on ONE wrapped stream (the wrapper lives as long
+// as the stream), with every kind of result in between - nil, io.EOF (the peer half-closed), a plain error, a status
+// error - and grants and refusals mixed: each operation's observation is the contract's, whatever came before it on
+// the same stream (C14: all sequences of RecvMsg/SendMsg calls on a stream).
+func TestGrpcStreamSequence(t *testing.T) {
+	w := newNdWriter(t, filepath.Join(outDir(t), "grpc_seq_trace.ndjson"))
+	defer w.close()
+	n := envInt("VERIF_N", 150)
+	results := []error{nil, nil, io.EOF, errInner, status.Error(codes.Internal, "boom"), io.EOF}
+	cls := []string{"success", "ignore", "dropped"}
+	k := 0
+	for seq := 0; seq < n; seq++ {
+		r := newRng(seed(), uint64(40000+seq))
+		cfg := grpcCfg{Custom: r.chance(1, 2), CustomLE: r.chance(1, 2), Named: r.intn(3)}
+		st := newGrpcStack(cfg)
+		rec := st.rec
+		fs := &seqStream{ctx: context.Background(), r: rec}
+		_ = st.ss(nil, fs, &golangGrpc.StreamServerInfo{FullMethod: "/svc/S"}, func(srv interface{}, ss golangGrpc.ServerStream) error {
+			for i, nops := 0, r.between(4, 14); i < nops; i++ {
+				inner := results[r.intn(len(results))]
+				op := grpcOp{Kind: []string{"recv", "send"}[r.intn(2)], Grant: r.chance(3, 4), Err: inner != nil, Cls: r.pick(cls),
+					LeCode: []string{"Unavailable", "Aborted"}[r.intn(2)], Ctx: "live"}
+				rec.mu.Lock()
+				rec.asked, rec.completed, rec.ran, rec.grant = nil, nil, 0, op.Grant
+				rec.mu.Unlock()
+				st.op = op
+				fs.err = inner
+				var ret error
+				if op.Kind == "recv" {
+					ret = ss.RecvMsg(op.LeCode)
+				} else {
+					ret = ss.SendMsg(op.LeCode)
+				}
+				code, same := "OK", true
+				if ret != nil {
+					if ret == inner {
+						code = "inner"
+					} else {
+						code, same = status.Code(ret).String(), false
+					}
+				}
+				rec.mu.Lock()
+				obs := J{"asked": append([]string{}, rec.asked...), "ran": rec.ran, "completed": append([]J{}, rec.completed...), "code": code, "same": same}
+				rec.mu.Unlock()
+				w.write(J{"trace": k, "cfg": cfg, "op": op, "obs": obs, "stream": seq, "pos": i, "inner": fmt.Sprint(inner)})
+				k++
+			}
+			return nil
+		})
+	}
+	writeJSON(t, filepath.Join(outDir(t), "grpc_seq.json"), J{"streams": n, "operations": k})
 }
